@@ -283,6 +283,7 @@ class DelayPeer(object):
             in_tx = False
             tag = None
             nmsg = 0
+            naccepted = 0
             while True:
                 line = f.readline()
                 if not line:
@@ -292,13 +293,28 @@ class DelayPeer(object):
                 if verb == b'EHLO':
                     self.sock.sendall(b'250-peer\r\n250 PIPELINING\r\n' if case['pipelining'] else b'250 peer\r\n')
                 elif verb == b'MAIL':
+                    if in_tx:
+                        # like a real server: nested MAIL is a protocol error (the previous transaction was never reset)
+                        self.log.append((conn, 'MAIL-WHILE-OPEN', line.strip()))
+                        self.sock.sendall(b'503 5.5.1 nested MAIL\r\n')
+                        continue
                     self.log.append((conn, 'MAIL', line.strip()))
                     in_tx = True
+                    naccepted = 0
                     self.sock.sendall(b'250 2.1.0 ok\r\n')
                 elif verb == b'RCPT':
                     fault = case['faults'].get(line.strip().split(b'<')[1].split(b'@')[0].decode(), None)
-                    self.sock.sendall(b'451 4.5.0 rcpt later\r\n' if fault == 'rcpt4xx' else b'250 2.1.5 ok\r\n')
+                    if fault == 'rcpt4xx':
+                        self.sock.sendall(b'451 4.5.0 rcpt later\r\n')
+                    elif fault == 'rcpt5xx':
+                        self.sock.sendall(b'550 5.1.1 rcpt unknown\r\n')
+                    else:
+                        naccepted += 1
+                        self.sock.sendall(b'250 2.1.5 ok\r\n')
                 elif verb == b'DATA':
+                    if not naccepted:
+                        self.sock.sendall(b'503 5.5.1 no valid recipients\r\n')
+                        continue
                     self.sock.sendall(b'354 go\r\n')
                     data = b''
                     while True:
@@ -364,6 +380,8 @@ def run_b(case):
     for i in range(n):
         env = c11.make_env(1, 'm%d' % i)
         env.recipients = ['m%d@y.example' % i]
+        if 'm%db' % i in case['faults'] or case.get('two_rcpts'):
+            env.recipients.append('m%db@y.example' % i)
         o = AsyncResult()
 
         def go(env=env, o=o):
@@ -385,7 +403,7 @@ def run_b(case):
                 rep = list(res.values())[0] if isinstance(res, dict) else res
                 text = getattr(rep, 'message', None) or getattr(getattr(rep, 'reply', None), 'message', '')
                 if isinstance(rep, RelayError):
-                    if case['faults'].get(tag) not in ('rcpt4xx', 'eod4xx'):
+                    if case['faults'].get(tag) not in ('rcpt4xx', 'rcpt5xx', 'eod4xx'):
                         # a transient error without a scripted fault: only connection-level events may explain it
                         if not (case.get('refuse') or any(v in ('then421', 'thenclose') for v in case['faults'].values())):
                             out.append(('C19:unexplained-failure', '%s: %s -> %r' % (desc, tag, rep.reply)))
@@ -407,6 +425,10 @@ def run_b(case):
             open_tx = False
             failed = False
             for ev, arg in evs:
+                if ev == 'MAIL-WHILE-OPEN':
+                    out.append(('C19:no-reset-after-failed-transaction', '%s: MAIL arrived while the previous transaction was '
+                                'still open on that connection: %r' % (desc, evs)))
+                    break
                 if ev == 'MAIL':
                     if open_tx:
                         out.append(('C19:two-messages-interleaved-on-one-connection', '%s: %r' % (desc, evs)))
@@ -438,8 +460,12 @@ def case_b(draw):
     n = draw(st.integers(1, 8))
     faults = {}
     for i in range(n):
-        f = draw(st.sampled_from([None, None, None, 'eod4xx', 'rcpt4xx', 'then421', 'thenclose']))
-        if f:
+        f = draw(st.sampled_from([None, None, None, 'eod4xx', 'rcpt4xx', 'rcpt5xx', 'then421', 'thenclose', 'mixed']))
+        if f == 'mixed':
+            # two recipients, both refused, with different classes
+            faults['m%d' % i] = draw(st.sampled_from(['rcpt4xx', 'rcpt5xx']))
+            faults['m%db' % i] = 'rcpt5xx' if faults['m%d' % i] == 'rcpt4xx' else 'rcpt4xx'
+        elif f:
             faults['m%d' % i] = f
     return {'family': 'B', 'n': n, 'size': draw(st.sampled_from([1, 2, 3, None])), 'idle': draw(st.sampled_from([None, 0.05, 1.0])),
             'pipelining': draw(st.booleans()), 'delay': draw(st.sampled_from([0.0, 0.001, 0.005])),
@@ -480,7 +506,7 @@ def replay(case):
         if case.get('family') == 'B':
             case = dict(case, n=max(1, min(8, int(case['n']))))
             case['faults'] = dict((k, v) for k, v in case.get('faults', {}).items()
-                                  if v in ('eod4xx', 'rcpt4xx', 'then421', 'thenclose'))
+                                  if v in ('eod4xx', 'rcpt4xx', 'rcpt5xx', 'then421', 'thenclose'))
             if case.get('size') not in (1, 2, 3, None):
                 return []
             return run_b(case)[0]
